@@ -281,6 +281,11 @@ int yr_parser_emit_pushes_for_rules(
       {
         FAIL_ON_ERROR(yr_parser_emit_with_arg(
             yyscanner, OP_PUSH_RULE, rule_idx, NULL, NULL));
+
+        // A disabled rule is undefined, and an undefined value on the stack is
+        // what marks the end of the set: make it false (undefined or false).
+        FAIL_ON_ERROR(yr_parser_emit_push_const(yyscanner, 0));
+        FAIL_ON_ERROR(yr_parser_emit(yyscanner, OP_OR, NULL));
         matching++;
       }
     }
